@@ -39,7 +39,7 @@ class FakeClock(IClock):
         :param initial: The initial instant.
         :param auto_advance: The duration to advance the clock on each read.
         """
-        self.__lock: Final[threading.Lock] = threading.Lock()
+        self.__lock: Final[threading.RLock] = threading.RLock()
         self.__now: Instant = initial
         self.__auto_advance: Duration = auto_advance
 
